@@ -51,6 +51,9 @@ type Event struct {
 	SleepMs int64   `json:"sleep_ms,omitempty"`
 	N       int     `json:"n,omitempty"`
 	Burst   []Req   `json:"burst,omitempty"`
+	StallAt int     `json:"stall_at,omitempty"` // the handler sleeps at its StallAt-th instrumented statement ...
+	StallMs int64   `json:"stall_ms,omitempty"` // ... for this long (fake time)
+	StallNs int64   `json:"stall_ns,omitempty"`
 	Preempt int     `json:"preempt,omitempty"` // burst: handlers yield the processor every Preempt-th statement (0 = never)
 	Probe   bool    `json:"probe,omitempty"`   // follow with probes (same connection + fresh connection)
 	PReq    *Req    `json:"preq,omitempty"`    // the probe request
@@ -476,9 +479,9 @@ func GenPlan(t *rapid.T, prop string) *Plan {
 		var e Event
 		e.Conn = rapid.IntRange(0, nConn-1).Draw(t, "conn")
 		e.IP = rapid.IntRange(0, 3).Draw(t, "ip")
-		kw := []int{12, 3, 1, 0, 0, 1, 2, 1, 0, 0, 2}
+		kw := []int{12, 3, 1, 0, 0, 1, 2, 1, 0, 0, 2, 0}
 		if adversarial {
-			kw = []int{4, 3, 2, 1, 1, 1, 1, 1, 1, 12, 1}
+			kw = []int{4, 3, 2, 1, 1, 1, 1, 1, 1, 12, 1, 1}
 		}
 		switch weighted(t, "evKind", kw...) {
 		case 0:
@@ -487,6 +490,11 @@ func GenPlan(t *rapid.T, prop string) *Plan {
 			e.Req = &r
 			e.Fresh = weighted(t, "fresh", 4, 1) == 1
 			genFrag(t, &e, false)
+			if weighted(t, "stall?", 4, 1) == 1 {
+				e.StallAt = rapid.IntRange(1, 120).Draw(t, "stallAt")
+				e.StallMs = rapid.SampledFrom([]int64{0, 1, 400, 999, 1000, 1001, 2500, 29000, 31000}).Draw(t, "stallMs")
+				e.StallNs = rapid.SampledFrom([]int64{1, 999_999, 500_000_000}).Draw(t, "stallNs")
+			}
 		case 1:
 			e.Kind = "sleep"
 			e.SleepMs = rapid.SampledFrom([]int64{1, 500, 1000, 4000, 29000, 30000, 31000, 3600_000, 86400_000}).Draw(t, "sleepMs")
@@ -528,6 +536,18 @@ func GenPlan(t *rapid.T, prop string) *Plan {
 			if weighted(t, "abort?", 7, 1) == 1 {
 				e.AbortAt = rapid.IntRange(1, 999).Draw(t, "abortAt")
 			}
+			e.Probe = true
+			pr := genGood(t)
+			pr.Close = false
+			e.PReq = &pr
+		case 11:
+			e.Kind = "manyattack"
+			r := genAttack(t)
+			for r.Raw != "" || r.Pad > 0 {
+				r = genAttack(t)
+			}
+			e.Req = &r
+			e.N = rapid.SampledFrom([]int{5, 60, 260, 520}).Draw(t, "attackN")
 			e.Probe = true
 			pr := genGood(t)
 			pr.Close = false
